@@ -60,6 +60,11 @@ def parts_equal_term(a, b):
         xz = isinstance(x, tuple) or z3.is_expr(x)
         yz = isinstance(y, tuple) or z3.is_expr(y)
         if xz != yz:
+            # a term on one side, a plain integer on the other (the same operand once symbolic, once already concrete)
+            t, c = (x, y) if xz else (y, x)
+            if z3.is_expr(t) and isinstance(c, int) and not isinstance(c, bool) and z3.is_bv(t):
+                conj.append(t == z3.BitVecVal(c, t.size()))
+                continue
             return False
         if not xz:
             if x != y:
